@@ -22,7 +22,8 @@ GX == <<2, 4, 6, 8, 12, 14, 16, 20>>
 GX2 == <<2, 4, 8, 10, 12, 16, 18, 20>>
 GridOf(m) == IF fmt = "perfile" /\ gsel[m] = 2 THEN GX2 ELSE GX
 Filters == << [fx |-> <<3, 5, 6>>, fy |-> <<0, 2, 1>>],        \* inside the grid, zero / non-zero edges
-              [fx |-> <<10, 13, 17, 22>>, fy |-> <<1, 3, 3, 0>>] >>   \* sticks out of the grid at the top
+              [fx |-> <<10, 13, 17, 22>>, fy |-> <<1, 3, 3, 0>>],     \* sticks out of the grid at the top
+              [fx |-> <<9, 10, 11>>, fy |-> <<1, 2, 1>>] >>           \* narrow: holds NO node of GX (both neighbours 8 and 12 lie outside, their bins reach in) and one node of GX2
 Fl(m, a, i) == 1 + ((7 * m + 3 * a + 5 * i) % 9)
 Er(m, a, i) == 1 + ((m + 2 * a + i) % 4)
 \* binned responses per (filter, grid): constant-level, evaluated once by TLC
